@@ -30,7 +30,20 @@ KWInputs == { Dct(SelectSeq(<< <<S("p"), vp>>, <<S("q"), vq>>, <<S("r"), vr>>, <
               : vp \in {I(3), S("garbage"), <<"absent">>}, vq \in {S("2024-01-02"), S("garbage"), <<"absent">>},
                 vr \in {I(4), L(<<>>), <<"absent">>}, vs \in {S("t"), <<"absent">>} }
 EE == <<"dc", "E", <<>>, <<>> >>
-Classes == { DD(f, pf, pl) : f \in BOOLEAN, pf \in BOOLEAN, pl \in BOOLEAN } \cup { EE, PP(TRUE), PP(FALSE), KW }
+\* a GENERIC dataclass Box[T] (v: T, o: T = 5) whose type variable is bound to int -- by specialisation inside a holder, by
+\* inheritance (IntBox(Box[int])) and directly: a field typed by a bound type variable is exactly as strict as the bound type
+TV == <<"tvar", "T">>
+GB(plain) == <<"dc", "Box", << <<"v", <<"int">>, <<"req">>, <<>> >>, <<"o", <<"int">>, <<"val", I(5)>>, <<>> >> >>,
+               (IF plain THEN << <<"mixin", "plain">> >> ELSE <<>>) \o << <<"generic", << <<"T">>, << <<"int">> >>, << <<"v", TV>>, <<"o", TV>> >> >> >> >> >>
+IntBox(plain) == <<"dc", "IntBox", DcFields(GB(plain)), (IF plain THEN << <<"mixin", "plain">> >> ELSE <<>>) \o << <<"bases", <<GB(plain)>> >> >> >>
+GH(plain) == <<"dc", "GHold", << <<"b", GB(plain), <<"req">>, <<>> >>, <<"n", <<"int">>, <<"val", I(0)>>, <<>> >> >>, <<>> >>
+\* (GB(FALSE) on its own is left out: the only entry point of a generic MIXIN class is Box.from_dict, where T is unbound)
+GClasses == { GB(TRUE), IntBox(TRUE), IntBox(FALSE), GH(TRUE), GH(FALSE) }
+GBInputs == { Dct(<< <<S("v"), I(3)>> >>), Dct(<< <<S("v"), None>> >>), Dct(<< <<S("v"), I(3)>>, <<S("o"), None>> >>), Dct(<< <<S("v"), S("bad")>> >>),
+              Dct(<<>>), Dct(<< <<S("v"), None>>, <<S("o"), None>> >>), Dct(<< <<S("o"), I(1)>> >>) }
+GInputsFor(C) == IF C[2] = "GHold" THEN { Dct(<< <<S("b"), j>> >>) : j \in GBInputs } \cup { Dct(<< <<S("b"), j>>, <<S("n"), None>> >>) : j \in GBInputs }
+                 ELSE GBInputs
+Classes == { DD(f, pf, pl) : f \in BOOLEAN, pf \in BOOLEAN, pl \in BOOLEAN } \cup { EE, PP(TRUE), PP(FALSE), KW } \cup GClasses
 
 Valid == << <<S("a"), I(1)>>, <<S("b"), Dct(<< <<S("x"), I(2)>>, <<S("y"), S("q")>> >>)>>,
             <<S("c"), L(<<I(1), I(2)>>)>>, <<S("d"), S("2024-01-02")>>, <<S("ee"), S("r")>> >>
@@ -58,7 +71,8 @@ FewKeys == { Dct(<< <<S("zz"), I(1)>> >>), Dct(<< <<S("a"), I(1)>>, <<S("zz"), I
 PInputs == { Dct(<< <<S("x"), I(2)>> >>), Dct(<< <<S("x"), S("bad")>> >>), Dct(<<>>), Dct(<< <<S("x"), I(1)>>, <<S("zz"), I(1)>> >>),
              Dct(<< <<S("y"), None>> >>), Dct(<< <<S("x"), None>>, <<S("y"), I(5)>> >>) }
 
-InputsFor(C) == IF C[2] = "KW" THEN KWInputs \cup NonDicts
+InputsFor(C) == IF C \in GClasses THEN GInputsFor(C) \cup NonDicts
+                ELSE IF C[2] = "KW" THEN KWInputs \cup NonDicts
                 ELSE NonDicts \cup FewKeys \cup (IF C[2] = "D" THEN DictInputs ELSE PInputs \cup { Dct(Valid) })
 
 Init == T = <<"start">> /\ v = <<"nov">> /\ kind = "start"
